@@ -51,6 +51,8 @@ def rule_menu():
         ("All(ccAny(a,b|b),x)", C('All', None, [ccAny("ab", "b"), L("x")])),
         ("AtLeast2(ccAny(a,b|a),x,y)", C('AtLeast', None, [ccAny("ab", "a"), L("x"), L("y")], 2)),
         ("Any(ccXor(a,b,c|c),x)", C('Any', None, [ccXor("abc", "c"), L("x")])),
+        # item ids that sort BEFORE the generated 'VAR<sha>' ids (upper case, digits): the position of the non-default part among the sorted children changes
+        ("ccAny(E1,b|E1)", ccAny(["E1", "b"], "E1")), ("ccXor(2,a,c|2)", ccXor(["2", "a", "c"], "2")), ("ccAny(E1,Zz,b|Zz)", ccAny(["E1", "Zz", "b"], "Zz")),
         ("ccAny(a,P|a)", ccAny(["a", P_PACK], "a")),
         ("ccXor(a,P|a)", ccXor(["a", P_PACK], "a")),
         ("ccAny(a,P,Q|a)", ccAny(["a", P_PACK, Q_PACK], "a")),
